@@ -137,6 +137,64 @@ def Api.run (S2F : List Char → Except PyErr Nat) (v : Variant) (proto4 : Bool)
   | .addCb g n cb => (_root_.CfVerif.C04.addCb h g n cb, [])
   | .removeCb g n cb => _root_.CfVerif.C04.removeCb h g n cb
 
+/-! ### re-entrant callbacks: the caller's callback of a misc request may call the API again from inside the dispatch -/
+
+/-- what the callback registered under id `rid` does when it is called: further API calls, in order -/
+abbrev Scripts := Nat → List Api
+
+/-- run the API calls of a callback; an exception raised by one of them escapes the callback (the rest is skipped) -/
+def runScript (S2F : List Char → Except PyErr Nat) (v : Variant) (proto4 : Bool) : Host → List Api → Host × List Out × Bool
+  | h, [] => (h, [], true)
+  | h, c :: cs =>
+    let r := c.run S2F v proto4 h
+    match r.2 with
+    | [.raised e] => (r.1, [.cbError e], false)
+    | o =>
+      let r2 := runScript S2F v proto4 r.1 cs
+      (r2.1, o ++ r2.2.1, r2.2.2)
+
+/-- `oneShotCall` with the caller's callback executed where the handler calls it: after the reply was decoded, BEFORE the
+handler unregisters itself (source order, `Gen.C04.unregAfterCallback`); an exception escaping the callback skips the unregistration -/
+def oneShotCallS (S2F : List Char → Except PyErr Nat) (v : Variant) (proto4 : Bool) (sc : Scripts) (matchId : Bool) (h : Host)
+    (e : Pending) (p : Pkt) : Host × List Out :=
+  match oneShotMatches matchId e p with
+  | .error er => (h, [.cbError er])
+  | .ok false => (h, [])
+  | .ok true =>
+    let hm := handleMisc e p
+    match hm.1 with
+    | [.misc r cn res] =>
+      let rs := runScript S2F v proto4 h (sc r)
+      (if hm.2 && (rs.2.2 || !Gen.C04.unregAfterCallback) then { rs.1 with pending := rs.1.pending.erase e } else rs.1,
+       [.misc r cn res] ++ rs.2.1)
+    | o => (if hm.2 then { h with pending := h.pending.erase e } else h, o)
+
+def oneShotSnapS (S2F : List Char → Except PyErr Nat) (v : Variant) (proto4 : Bool) (sc : Scripts) (matchId : Bool) (p : Pkt) :
+    List Pending → Host → List Out → Host × List Out
+  | [], h, acc => (h, acc)
+  | e :: es, h, acc =>
+    let r := oneShotCallS S2F v proto4 sc matchId h e p
+    oneShotSnapS S2F v proto4 sc matchId p es r.1 (acc ++ r.2)
+
+def oneShotLiveS (S2F : List Char → Except PyErr Nat) (v : Variant) (proto4 : Bool) (sc : Scripts) (matchId : Bool) (p : Pkt) :
+    Nat → Nat → Host → List Out → Host × List Out
+  | 0, _, h, acc => (h, acc)
+  | fuel + 1, i, h, acc =>
+    match h.pending[i]? with
+    | none => (h, acc)
+    | some e =>
+      let r := oneShotCallS S2F v proto4 sc matchId h e p
+      oneShotLiveS S2F v proto4 sc matchId p fuel (i + 1) r.1 (acc ++ r.2)
+
+/-- `rx` with re-entrant callbacks (one-shot routings; the FIFO redesign is not landed and keeps inert callbacks) -/
+def rxS (S2F : List Char → Except PyErr Nat) (v : Variant) (proto4 : Bool) (sc : Scripts) (h : Host) (p : Pkt) : Host × List Out :=
+  let u := updaterRx h p
+  let m : Host × List Out :=
+    if v.routing = 2 then miscRxFifo u.1 u.2.2
+    else if v.snap then oneShotSnapS S2F v proto4 sc (v.routing = 1) u.2.2 u.1.pending u.1 []
+    else oneShotLiveS S2F v proto4 sc (v.routing = 1) u.2.2 (u.1.pending.length + 64) 0 u.1 []
+  (m.1, .rxd p :: (u.2.1 ++ m.2))
+
 structure Sys where
   host : Host
   dev : Dev
@@ -184,6 +242,26 @@ def Sys.run (S2F : List Char → Except PyErr Nat) (v : Variant) : Sys → List 
     | none => none
     | some (s1, o1) =>
       match Sys.run S2F v s1 es with
+      | none => none
+      | some (s2, o2) => some (s2, o1 ++ o2)
+
+/-- the closed system with re-entrant callbacks: only the delivery step differs -/
+def Sys.stepS (S2F : List Char → Except PyErr Nat) (v : Variant) (sc : Scripts) (s : Sys) : Ev → Option (Sys × List Out)
+  | .deliver =>
+    match s.down with
+    | [] => none
+    | p :: rest =>
+      let r := rxS S2F v s.dev.v2 sc s.host p
+      some ({ s with host := r.1, down := rest }, r.2)
+  | e => s.step S2F v e
+
+def Sys.runS (S2F : List Char → Except PyErr Nat) (v : Variant) (sc : Scripts) : Sys → List Ev → Option (Sys × List Out)
+  | s, [] => some (s, [])
+  | s, e :: es =>
+    match s.stepS S2F v sc e with
+    | none => none
+    | some (s1, o1) =>
+      match Sys.runS S2F v sc s1 es with
       | none => none
       | some (s2, o2) => some (s2, o1 ++ o2)
 
